@@ -73,7 +73,10 @@ def gen_element(rng):
             {'lots': [f"L{n}" for n in nums]}
     if k == 'lotacre':
         n = rng.randint(1, 30)
-        ac = f"{rng.randint(10, 45)}.{rng.randint(0, 99):02d}"
+        ac = rng.choice([f"{rng.randint(10, 45)}.{rng.randint(0, 99):02d}",
+                         f"{rng.randint(10, 45)}.{rng.randint(0, 99):02d}",
+                         f".{rng.randint(10, 99)}", f"{rng.randint(1, 9)}",
+                         f"0.{rng.randint(1, 9)}"])
         br = rng.choice(['()', '[]'])
         return k, f"Lot {n}{rng.choice(['', ' '])}{br[0]}{ac}{br[1]}", \
             {'lots': [f"L{n}"], 'acres': {f"L{n}": ac}}
